@@ -22,7 +22,7 @@
     (statement kinds of both engines, over-qualified names, mutations, random bytes,
     configuration sweeps, file-system faults through the binary).  Two panics of the
     pinned tree were found that way in the last round and repaired (e5e80a8, cb978d6). *)
-From Verif Require Import Model.Compile Proofs.NoPanicFacts Proofs.ResolveNoPanic Proofs.PanicSources Proofs.FindParamsNoPanic Model.Shape Proofs.WalkersNoPanic Proofs.ComposedNoPanic.
+From Verif Require Import Model.Compile Proofs.NoPanicFacts Proofs.ResolveNoPanic Proofs.PanicSources Proofs.FindParamsNoPanic Model.Shape Proofs.WalkersNoPanic Proofs.ComposedNoPanic Model.CompileFiles Proofs.RunNoPanic.
 Open Scope string_scope.
 Open Scope list_scope.
 
@@ -126,6 +126,14 @@ Example C18_parse_query_non_vacuous :
   /\ inserts_ok (kid "Stmt" (fst (fst (named_parameters EPostgres raw)))) = true
   /\ (exists q, parse_query e raw src false = Ok (Some q) /\ q_name q = "GetA").
 Proof. cbv zeta. repeat split; try (vm_compute; reflexivity). eexists. split; vm_compute; reflexivity. Qed.
+
+(** ... and for whole packages: no statement of any query file makes parseQueries panic
+    (Model/CompileFiles.v), any number of files and statements *)
+Theorem C18_package_partial : forall e p files seen,
+  Forall (fun f : qfile => let '(_, src, stmts) := f in Forall (stmt_ok e src) stmts) files ->
+  Forall (fun r => no_panic (snd r)) (parse_files e p files seen).
+Proof. exact parse_files_no_panic. Qed.
+Print Assumptions C18_package_partial.
 
 (** the shape hypothesis is needed: on a tree no parser produces (an UPDATE node without its
     FromClause list) the model panics exactly where the Go code dereferences the nil list *)
